@@ -7,6 +7,7 @@ import (
 	"regexp"
 	"strconv"
 	"strings"
+	"unicode/utf16"
 )
 
 var stringToNumberParseInteger = regexp.MustCompile(`^(?:0[xX])`)
@@ -80,6 +81,11 @@ func (v Value) float64() float64 {
 		return value
 	case string:
 		return parseNumber(value)
+	case []uint16:
+		// A string held as UTF-16 code units (String.fromCharCode, escapes with
+		// lone surrogates): a lone surrogate is not part of any numeric literal,
+		// so decoding it to U+FFFD does not change the result (NaN).
+		return parseNumber(string(utf16.Decode(value)))
 	case *object:
 		return value.DefaultValue(defaultValueHintNumber).float64()
 	}
